@@ -13,6 +13,9 @@ pub mod verif_access {
     pub use super::tables::verif_access as tables;
     pub const MAX_SEARCH_DEPTH: u8 = super::MAX_SEARCH_DEPTH;
     pub const MAX_SEARCH_DEPTH_SIZE: usize = super::MAX_SEARCH_DEPTH_SIZE;
+    pub fn persistent_from(tt: super::SearchTranspositionTable, history_table: HistoryTable) -> super::PersistentState {
+        super::PersistentState { tt, history_table, tablebase: super::Tablebase::new() }
+    }
     pub fn ctx_counters(ctx: &super::SearchContext<'_>) -> (u64, u8, u64) {
         (ctx.nodes_visited, ctx.max_depth_reached, ctx.tbhits)
     }
